@@ -66,18 +66,31 @@ class Ctx:
     def violation(self, cls, case, detail=None):
         ent = self.viol.get(cls)
         if ent is None:
-            self.viol[cls] = [1, case, detail, len(json.dumps(case, ensure_ascii=False, default=str))]
+            self.viol[cls] = [1, case, detail, len(json.dumps(case, ensure_ascii=False, default=str)), []]
             return
         ent[0] += 1
         if ent[0] < 2000 or ent[0] % 64 == 0:     # bounded effort on very frequent classes
             size = len(json.dumps(case, ensure_ascii=False, default=str))
             if size < ent[3]:
+                keep_alternative(ent[4], (ent[3], ent[1], ent[2]))
                 ent[1], ent[2], ent[3] = case, detail, size
+            else:
+                keep_alternative(ent[4], (size, case, detail))
 
     def export(self):
         return dict(states=self.states, transitions=self.transitions, evals=self.evals, validated=self.validated,
                     nontrivial=self.nontrivial, skipped=dict(self.skipped), extra=dict(self.extra),
                     outcomes=self.outcomes, stateset=self.stateset, samples=self.samples, viol=self.viol)
+
+
+def keep_alternative(alts, item, cap=4):
+    "a few more small witnesses of the same class: tried when the minimal one does not reproduce in a fresh process"
+    if len(alts) < cap:
+        alts.append(item)
+    else:
+        worst = max(range(len(alts)), key=lambda i: alts[i][0])
+        if item[0] < alts[worst][0]:
+            alts[worst] = item
 
 
 _CTX = None
@@ -223,15 +236,20 @@ def run_check(pid, tier):
     merged_viol = {}
     harness_errors = []
 
-    def add_viol(cls, count, case, detail):
+    def add_viol(cls, count, case, detail, alts=()):
         ent = merged_viol.get(cls)
         size = len(json.dumps(case, ensure_ascii=False, default=str))
         if ent is None:
-            merged_viol[cls] = [count, case, detail, size]
+            ent = merged_viol[cls] = [count, case, detail, size, []]
         else:
             ent[0] += count
             if size < ent[3]:
+                keep_alternative(ent[4], (ent[3], ent[1], ent[2]), 8)
                 ent[1], ent[2], ent[3] = case, detail, size
+            else:
+                keep_alternative(ent[4], (size, case, detail), 8)
+        for a in alts:
+            keep_alternative(ent[4], tuple(a), 8)
 
     # 1. stored witnesses of known findings (open: still failing? fixed: must hold now)
     witness_report = []
@@ -289,19 +307,19 @@ def run_check(pid, tier):
             for s in res['samples']:
                 if len(samples) < 12:
                     samples.append(s)
-            for cls, (count, case, detail, _size) in res['viol'].items():
-                add_viol(cls, count, case, detail)
+            for cls, (count, case, detail, _size, alts) in res['viol'].items():
+                add_viol(cls, count, case, detail, alts)
 
     tot['states'] += len(stateset)
 
     # 3. classify
     new = []
     known_seen = {}
-    for cls, (count, case, detail, _size) in sorted(merged_viol.items(), key=lambda kv: kv[1][3]):
+    for cls, (count, case, detail, _size, alts) in sorted(merged_viol.items(), key=lambda kv: kv[1][3]):
         if cls in open_classes:
             known_seen[cls] = (count, case)
         else:
-            new.append((cls, count, case, detail))
+            new.append((cls, count, case, detail, sorted(alts, key=lambda a: a[0])))
     exit_code = 0
     for e, status in witness_report:
         if e['status'] == 'open':
@@ -317,11 +335,20 @@ def run_check(pid, tier):
             lines.append('KNOWN-FINDING: property=%s %s class=%s count_in_sweep=%d' % (pid, e['what'], cls, known_seen[cls][0]))
     replays = []
     nonrepro = []
-    for cls, count, case, detail in new[:25]:
+    for cls, count, case, detail, alts in new[:25]:
         path = write_replay(pid, cls, case, detail, count, tier, mod)
         try:
             # a case that hung is not run a second time (it would only hang again): the watchdog's verdict stands
             again = None if cls == 'hang' else replay_in_fresh_process(path)
+            # the minimal witness may be one that fails only after other cases ran in the same process (history dependence);
+            # try the other small witnesses of the class before giving up
+            for _size, c2, d2 in alts:
+                if again is None or cls in again:
+                    break
+                os.remove(path)
+                case, detail = c2, d2
+                path = write_replay(pid, cls, case, detail, count, tier, mod)
+                again = replay_in_fresh_process(path)
         except Exception as ex_:
             again = None
             harness_errors.append(('replay', str(ex_)))
@@ -335,7 +362,8 @@ def run_check(pid, tier):
     if len(new) > 25:
         lines.append('note: %d further violation classes not written out' % (len(new) - 25))
     for cls, path, again in nonrepro:
-        lines.append('HARNESS-NONDETERMINISM property=%s class=%s replay=%s observed-in-fresh-process=%s' % (pid, cls, path, again))
+        lines.append('HARNESS-NONDETERMINISM property=%s class=%s replay=%s observed-in-fresh-process=%s (seen only after other cases had '
+                     'run in the same process: the library behaves history-dependently, cf. C08)' % (pid, cls, path, again))
         if exit_code == 0:
             exit_code = 2
     for shard, err in harness_errors[:5]:
